@@ -2,7 +2,10 @@
    the two passes of the implementation (scanG finds the closing delimiter,
    unq_loop decodes the text in front of it) composed into `fin`, and the
    induction over the source text showing that the composition equals the
-   specification's single pass `s_items` for EVERY well-formed source text. *)
+   specification's single pass `s_items` for EVERY well-formed source text
+   (mode ex = true: same value and same remaining input), and for EVERY byte
+   string whatsoever as far as acceptance and the remaining input go (mode
+   ex = false: on ill-formed UTF-8 the scanner writes U+FFFD into the value). *)
 From Coq Require Import NArith List Bool Lia ZifyBool ZifyNat ZifyN Arith.
 From SV Require Import C15.Utf8 C15.Quote C15.Spec C15.ProofsQuote C15.ProofsScan
   C15.ProofsAgreeScan C15.ProofsAgreeUnq.
@@ -97,12 +100,78 @@ Proof.
     assert (C2 : is_surrogate n = true) by lia. rewrite C2. reflexivity.
 Qed.
 
+(* ---- the two modes of agreement ------------------------------------------------ *)
+Definition rel (ex : bool) (a b : option (list N * list N)) : Prop :=
+  if ex then a = b
+  else omap (fun p : list N * list N => snd p) a = omap (fun p : list N * list N => snd p) b.
+Definition okv (ex : bool) (s : list N) : Prop := if ex then valid_utf8 s = true else True.
+
+Lemma rel_refl ex a : rel ex a a.
+Proof. destruct ex; reflexivity. Qed.
+
+Lemma rel_eq ex a b : a = b -> rel ex a b.
+Proof. intros ->. apply rel_refl. Qed.
+
+Lemma rel_prepend ex tr raw ib out v v' X K (P : list N -> Prop) :
+  long tr X ->
+  (forall b r, X = Ok (b, r) -> P (chop (klen tr) b)) ->
+  (forall l, P l -> unq_loop ib raw (out ++ l) = rmap (app v') (unq_loop ib raw l)) ->
+  (ex = true -> v' = v) ->
+  rel ex (fin tr raw ib X) K ->
+  rel ex (fin tr raw ib (rmap (prepend out) X)) (s_emit v K).
+Proof.
+  intros HL HP HU Hv HR. rewrite (fin_prepend tr raw ib out v' X P HL HP HU).
+  destruct ex; cbn [rel] in *.
+  - rewrite (Hv eq_refl), HR. reflexivity.
+  - destruct (fin tr raw ib X) as [[a b]|], K as [[c d]|]; cbn in *; congruence.
+Qed.
+
+Lemma rel_prepend0 ex tr raw ib out v X K :
+  long tr X ->
+  (forall l, unq_loop ib raw (out ++ l) = rmap (app v) (unq_loop ib raw l)) ->
+  rel ex (fin tr raw ib X) K ->
+  rel ex (fin tr raw ib (rmap (prepend out) X)) (s_emit v K).
+Proof. intros HL HU HR. apply (rel_prepend ex tr raw ib out v v X K (fun _ => True)); auto. Qed.
+
+Lemma rel_byte ex tr ib out n X K (P : list N -> Prop) :
+  long tr X ->
+  (forall b r, X = Ok (b, r) -> P (chop (klen tr) b)) ->
+  (forall l, P l -> unq_loop ib false (out ++ l) = oct_finish ib n (unq_loop ib false l)) ->
+  rel ex (fin tr false ib X) K ->
+  rel ex (fin tr false ib (rmap (prepend out) X)) (s_byte_escape ib n K).
+Proof.
+  intros HL HP HU HR.
+  pose proof (fin_byte tr ib out n X P HL HP HU) as E. rewrite E. clear E.
+  unfold s_byte_escape. destruct ((255 <? n) || (negb ib && (127 <? n))); [apply rel_refl|].
+  destruct ex; cbn [rel] in *.
+  - rewrite HR. reflexivity.
+  - destruct (fin tr false ib X) as [[a b]|], K as [[c d]|]; cbn in *; congruence.
+Qed.
+
+Lemma rel_cp ex tr ib out n X K (P : list N -> Prop) :
+  long tr X ->
+  (forall b r, X = Ok (b, r) -> P (chop (klen tr) b)) ->
+  (forall l, P l -> unq_loop ib false (out ++ l) = code_point n (unq_loop ib false l)) ->
+  rel ex (fin tr false ib X) K ->
+  rel ex (fin tr false ib (rmap (prepend out) X)) (s_unicode_escape n K).
+Proof.
+  intros HL HP HU HR.
+  pose proof (fin_cp tr ib out n X P HL HP HU) as E. rewrite E. clear E.
+  unfold s_unicode_escape. destruct (is_scalar n); [|apply rel_refl].
+  destruct ex; cbn [rel] in *.
+  - rewrite HR. reflexivity.
+  - destruct (fin tr false ib X) as [[a b]|], K as [[c d]|]; cbn in *; congruence.
+Qed.
+
 (* ---- well-formed source ------------------------------------------------------ *)
 Lemma valid_ascii_app l t : Forall (fun c => c < 0x80) l -> valid_utf8 (l ++ t) = true -> valid_utf8 t = true.
 Proof.
   induction 1 as [|c l Hc Hl IH]; intros H; [exact H|].
   apply IH. eapply valid_ascii_tail; [exact Hc|exact H].
 Qed.
+
+Lemma okv_app ex l t : Forall (fun c => c < 0x80) l -> okv ex (l ++ t) -> okv ex t.
+Proof. destruct ex; [apply valid_ascii_app|trivial]. Qed.
 
 (* ---- hexadecimal digits in the source and in the token text --------------------- *)
 Definition hexchar (h : N) : Prop := (48 <= h <= 57) \/ (65 <= h <= 70) \/ (97 <= h <= 102).
@@ -196,30 +265,31 @@ Qed.
 End Body.
 
 (* ---- the induction ---------------------------------------------------------------- *)
-Definition IHn (tr raw ib : bool) (q : N) (n : nat) : Prop :=
-  forall s, (length s <= n)%nat -> valid_utf8 s = true ->
-  fin tr raw ib (scanG tr q 0 false 0 s) = s_items raw ib tr q s.
+Definition IHn (ex tr raw ib : bool) (q : N) (n : nat) : Prop :=
+  forall s, (length s <= n)%nat -> okv ex s ->
+  rel ex (fin tr raw ib (scanG tr q 0 false 0 s)) (s_items raw ib tr q s).
 
-Ltac vapp Hv l := apply (valid_ascii_app l); [repeat constructor; lia|exact Hv].
+Ltac vapp Hv l := apply (okv_app _ l); [repeat constructor; lia|exact Hv].
 
 (* numeric escapes of a non-raw literal: the backslash and the escape letter e
    have been scanned *)
-Lemma step_hex tr ib q n k e t1
+Lemma step_hex ex tr ib q n k e t1
   (F : N -> option (list N * list N) -> option (list N * list N))
   (M : N -> res (list N) -> res (list N)) :
-  (q = 34 \/ q = 39) -> IHn tr false ib q n ->
-  e < 0x80 -> (length t1 <= n)%nat -> valid_utf8 t1 = true -> (0 < k)%nat ->
+  (q = 34 \/ q = 39) -> IHn ex tr false ib q n ->
+  e < 0x80 -> (length t1 <= n)%nat -> okv ex t1 -> (0 < k)%nat ->
   (forall l, unq_loop ib false (92 :: e :: l) =
              match take_hex k 0 l with Some (m, l') => M m (unq_loop ib false l') | None => Err end) ->
-  (forall m out X (P : list N -> Prop), take_hex k 0 t1 <> None -> (m < 256 \/ k <> 2%nat) ->
+  (forall m out X K (P : list N -> Prop), (m < 256 \/ k <> 2%nat) ->
      long tr X -> (forall b r, X = Ok (b, r) -> P (chop (klen tr) b)) ->
      (forall l, P l -> unq_loop ib false (out ++ l) = M m (unq_loop ib false l)) ->
-     fin tr false ib (rmap (prepend out) X) = F m (fin tr false ib X)) ->
-  fin tr false ib (rmap (prepend [92; e]) (scanG tr q 0 false 0 t1)) =
-  match take_hex k 0 t1 with
-  | Some (m, t2) => F m (s_items false ib tr q t2)
-  | None => None
-  end.
+     rel ex (fin tr false ib X) K ->
+     rel ex (fin tr false ib (rmap (prepend out) X)) (F m K)) ->
+  rel ex (fin tr false ib (rmap (prepend [92; e]) (scanG tr q 0 false 0 t1)))
+  (match take_hex k 0 t1 with
+   | Some (m, t2) => F m (s_items false ib tr q t2)
+   | None => None
+   end).
 Proof.
   intros Hq IH He Hn Hv Hk HU HF.
   destruct (take_hex k 0 t1) as [[m t2]|] eqn:TH.
@@ -228,103 +298,102 @@ Proof.
     assert (Hsp : Forall (splain q) hs).
     { eapply Forall_impl; [|exact E3]. intros a Ha. now apply hexchar_splain. }
     rewrite (G_plain_app tr q Hq hs 0 t2 Hne Hsp), rmap_prepend2.
-    rewrite <- (IH t2).
-    + apply (HF m ([92; e] ++ hs) _ (fun _ => True)).
-      * try rewrite TH; discriminate.
-      * destruct (Nat.eq_dec k 2) as [->|Hk2]; [left; eapply take_hex2_bound; exact TH|now right].
-      * apply scanG_long; exact Hq.
-      * auto.
-      * intros l _. rewrite <- app_assoc. cbn [app]. rewrite HU, E4. reflexivity.
-    + rewrite app_length in Hn. lia.
-    + apply (valid_ascii_app hs); [|exact Hv].
-      eapply Forall_impl; [|exact E3]. intros a Ha. unfold hexchar in Ha. lia.
-  - apply (fin_err tr false ib [92; e] _ (fun l => take_hex k 0 l = None)).
+    apply (HF m ([92; e] ++ hs) _ _ (fun _ => True)).
+    + destruct (Nat.eq_dec k 2) as [->|Hk2]; [left; eapply take_hex2_bound; exact TH|now right].
+    + apply scanG_long; exact Hq.
+    + auto.
+    + intros l _. rewrite <- app_assoc. cbn [app]. rewrite HU, E4. reflexivity.
+    + apply IH.
+      * rewrite app_length in Hn. lia.
+      * apply (okv_app ex hs); [|exact Hv].
+        eapply Forall_impl; [|exact E3]. intros a Ha. unfold hexchar in Ha. lia.
+  - apply rel_eq. apply (fin_err tr false ib [92; e] _ (fun l => take_hex k 0 l = None)).
     + apply scanG_long; exact Hq.
     + intros b r HG. eapply take_hex_none_scan; [exact Hq|exact TH|exact HG].
     + intros l Hl. cbn [app]. rewrite HU, Hl. reflexivity.
 Qed.
 
-Lemma step_escape tr ib q n e t1 :
-  (q = 34 \/ q = 39) -> IHn tr false ib q n ->
-  e < 0x80 -> e <> 10 -> e <> 13 -> (length t1 <= n)%nat -> valid_utf8 t1 = true ->
-  fin tr false ib (rmap (prepend [92; e]) (scanG tr q 0 false 0 t1)) =
-  s_items false ib tr q (92 :: e :: t1).
+Lemma step_escape ex tr ib q n e t1 :
+  (q = 34 \/ q = 39) -> IHn ex tr false ib q n ->
+  e < 0x80 -> e <> 10 -> e <> 13 -> (length t1 <= n)%nat -> okv ex t1 ->
+  rel ex (fin tr false ib (rmap (prepend [92; e]) (scanG tr q 0 false 0 t1)))
+         (s_items false ib tr q (92 :: e :: t1)).
 Proof.
   intros Hq IH He H10 H13 Hn Hv.
   pose proof (fun s sk es => scanG_long tr q s sk es Hq) as LONG.
   destruct (s_simple e) as [v|] eqn:SS.
-  { rewrite (S_bs_simple ib tr q Hq e v t1 H10 H13 SS), <- (IH t1 Hn Hv).
-    apply fin_prepend0; [apply LONG|]. intros l. cbn [app].
+  { rewrite (S_bs_simple ib tr q Hq e v t1 H10 H13 SS).
+    apply rel_prepend0; [apply LONG| |apply (IH t1 Hn Hv)]. intros l. cbn [app].
     rewrite (U_simple ib e v l SS H10). destruct (unq_loop ib false l); reflexivity. }
   destruct (s_octal e) eqn:SO.
   { rewrite (S_oct ib tr q Hq e t1 SO).
     assert (He' : is_oct e = true) by exact SO.
-    destruct t1 as [|d1 t2]; [reflexivity|].
+    destruct t1 as [|d1 t2]; [apply rel_refl|].
     destruct (s_octal d1) eqn:SO1.
     - assert (Hd1 : is_oct d1 = true) by exact SO1.
       assert (P1 : splain q d1) by (unfold is_oct, splain in *; lia).
       rewrite (G_plain tr q Hq d1 0 t2 P1), rmap_prepend2. cbn [app].
-      destruct t2 as [|d2 t3]; [reflexivity|].
-      assert (V2 : valid_utf8 (d2 :: t3) = true) by (unfold is_oct in Hd1; vapp Hv [d1]).
+      destruct t2 as [|d2 t3]; [apply rel_refl|].
+      assert (V2 : okv ex (d2 :: t3)) by (unfold is_oct in Hd1; vapp Hv [d1]).
       destruct (s_octal d2) eqn:SO2.
       + assert (Hd2 : is_oct d2 = true) by exact SO2.
         assert (P2 : splain q d2) by (unfold is_oct, splain in *; lia).
         rewrite (G_plain tr q Hq d2 0 t3 P2), rmap_prepend2. cbn [app].
-        rewrite <- (IH t3); [|simpl in Hn; lia|unfold is_oct in Hd2; vapp V2 [d2]].
         replace (64 * (e - 48) + 8 * (d1 - 48) + (d2 - 48)) with (((e - 48) * 8 + (d1 - 48)) * 8 + (d2 - 48)) by lia.
-        apply (fin_byte tr ib _ _ _ (fun _ => True)); [apply LONG|auto|].
-        intros l _. cbn [app]. apply U_oct3; assumption.
-      + rewrite <- (IH (d2 :: t3)); [|simpl in Hn |- *; lia|exact V2].
-        replace (8 * (e - 48) + (d1 - 48)) with ((e - 48) * 8 + (d1 - 48)) by lia.
-        apply (fin_byte tr ib _ _ _ nonoct); [apply LONG| |].
+        apply (rel_byte ex tr ib _ _ _ _ (fun _ => True)); [apply LONG|auto| |].
+        * intros l _. cbn [app]. apply U_oct3; assumption.
+        * apply IH; [simpl in Hn; lia|unfold is_oct in Hd2; vapp V2 [d2]].
+      + replace (8 * (e - 48) + (d1 - 48)) with ((e - 48) * 8 + (d1 - 48)) by lia.
+        apply (rel_byte ex tr ib _ _ _ _ nonoct); [apply LONG| | |].
         * intros b r HG. eapply nonoct_body; [exact Hq| |exact HG]. exact SO2.
         * intros l Hl. cbn [app]. apply U_oct2; assumption.
-    - rewrite <- (IH (d1 :: t2) Hn Hv).
-      apply (fin_byte tr ib _ _ _ nonoct); [apply LONG| |].
+        * apply IH; [simpl in Hn |- *; lia|exact V2].
+    - apply (rel_byte ex tr ib _ _ _ _ nonoct); [apply LONG| | |].
       + intros b r HG. eapply nonoct_body; [exact Hq| |exact HG]. exact SO1.
-      + intros l Hl. cbn [app]. apply U_oct1; assumption. }
+      + intros l Hl. cbn [app]. apply U_oct1; assumption.
+      + apply (IH (d1 :: t2) Hn Hv). }
   destruct (e =? 120) eqn:E120.
   { assert (e = 120) by lia. subst e. rewrite (S_x ib tr q Hq t1).
-    apply (step_hex tr ib q n 2 120 t1 (s_byte_escape ib)
+    apply (step_hex ex tr ib q n 2 120 t1 (s_byte_escape ib)
              (fun m k => if negb ib && (127 <? m) then Err else rmap (cons m) k)); auto; try lia.
     - intros l. rewrite U_x. reflexivity.
-    - intros m out X P _ Hm HL HP HU. apply (fin_byte tr ib out m X P HL HP).
+    - intros m out X K P Hm HL HP HU HR. apply (rel_byte ex tr ib out m X K P HL HP); [|exact HR].
       intros l Hl. rewrite HU by exact Hl. unfold oct_finish.
       destruct (negb ib && (127 <? m)); [reflexivity|].
       assert (C : (256 <=? m) = false) by lia. rewrite C. reflexivity. }
   destruct (e =? 117) eqn:E117.
   { assert (e = 117) by lia. subst e. rewrite (S_u ib tr q Hq t1).
-    apply (step_hex tr ib q n 4 117 t1 s_unicode_escape code_point); auto; try lia.
+    apply (step_hex ex tr ib q n 4 117 t1 s_unicode_escape code_point); auto; try lia.
     - intros l. rewrite U_u. reflexivity.
-    - intros m out X P _ _ HL HP HU. apply (fin_cp tr ib out m X P HL HP HU). }
+    - intros m out X K P _ HL HP HU HR. apply (rel_cp ex tr ib out m X K P HL HP HU HR). }
   destruct (e =? 85) eqn:E85.
   { assert (e = 85) by lia. subst e. rewrite (S_U ib tr q Hq t1).
-    apply (step_hex tr ib q n 8 85 t1 s_unicode_escape code_point); auto; try lia.
+    apply (step_hex ex tr ib q n 8 85 t1 s_unicode_escape code_point); auto; try lia.
     - intros l. rewrite U_U. reflexivity.
-    - intros m out X P _ _ HL HP HU. apply (fin_cp tr ib out m X P HL HP HU). }
+    - intros m out X K P _ HL HP HU HR. apply (rel_cp ex tr ib out m X K P HL HP HU HR). }
   rewrite (S_bs_bad ib tr q Hq e t1) by (auto; lia).
-  apply fin_err0; [apply LONG|]. intros l. cbn [app]. apply U_bad; auto; lia.
+  apply rel_eq. apply fin_err0; [apply LONG|]. intros l. cbn [app]. apply U_bad; auto; lia.
 Qed.
 
 (* a backslash (any mode) *)
-Lemma step_bs tr raw ib q n t :
-  (q = 34 \/ q = 39) -> IHn tr raw ib q n ->
-  (length t <= n)%nat -> valid_utf8 t = true ->
-  fin tr raw ib (scanG tr q 0 false 0 (92 :: t)) = s_items raw ib tr q (92 :: t).
+Lemma step_bs ex tr raw ib q n t :
+  (q = 34 \/ q = 39) -> IHn ex tr raw ib q n ->
+  (length t <= n)%nat -> okv ex t ->
+  rel ex (fin tr raw ib (scanG tr q 0 false 0 (92 :: t))) (s_items raw ib tr q (92 :: t)).
 Proof.
   intros Hq IH Hn Hv.
   pose proof (fun s sk es => scanG_long tr q s sk es Hq) as LONG.
   rewrite (G_bs tr q Hq).
-  destruct t as [|e t1]; [rewrite (S_bs_nil raw ib tr q Hq); reflexivity|].
+  destruct t as [|e t1]; [rewrite (S_bs_nil raw ib tr q Hq); apply rel_refl|].
   (* the two-byte text "\ LF" : kept by raw literals, dropped by the others *)
-  assert (NL : forall t', (length t' <= n)%nat -> valid_utf8 t' = true ->
-            fin tr raw ib (rmap (prepend [92; 10]) (scanG tr q 0 false 0 t')) =
+  assert (NL : forall t', (length t' <= n)%nat -> okv ex t' ->
+            rel ex (fin tr raw ib (rmap (prepend [92; 10]) (scanG tr q 0 false 0 t')))
             (if raw then s_emit [92; 10] (s_items raw ib tr q t') else s_items raw ib tr q t')).
-  { intros t' Hn' Hv'. rewrite <- (IH t' Hn' Hv'). destruct raw.
-    - apply fin_prepend0; [apply LONG|]. intros l.
+  { intros t' Hn' Hv'. pose proof (IH t' Hn' Hv') as IHt. destruct raw.
+    - apply rel_prepend0; [apply LONG| |exact IHt]. intros l.
       apply (U_copy_app ib true [92; 10] l). repeat constructor; try lia; now right.
-    - transitivity (s_emit [] (fin tr false ib (scanG tr q 0 false 0 t'))); [|apply s_emit_nil].
-      apply fin_prepend0; [apply LONG|]. intros l. cbn [app]. rewrite U_bs_nl.
+    - rewrite <- (s_emit_nil (s_items false ib tr q t')).
+      apply rel_prepend0; [apply LONG| |exact IHt]. intros l. cbn [app]. rewrite U_bs_nl.
       destruct (unq_loop ib false l); reflexivity. }
   destruct (e =? 10) eqn:E10.
   { assert (e = 10) by lia. subst e.
@@ -334,7 +403,7 @@ Proof.
   { assert (e = 13) by lia. subst e.
     destruct t1 as [|n' t2].
     - rewrite (G_esc_cr tr q Hq []) by (intros t'; discriminate).
-      rewrite (S_bs_cr_nil raw ib tr q Hq). reflexivity.
+      rewrite (S_bs_cr_nil raw ib tr q Hq). apply rel_refl.
     - destruct (n' =? 10) eqn:N10.
       + assert (n' = 10) by lia. subst n'. rewrite (G_esc_cr_lf tr q Hq), rmap_prepend2. cbn [app].
         rewrite (S_bs_cr_lf raw ib tr q Hq). apply NL; [simpl in Hn; lia|vapp Hv [13; 10]].
@@ -342,23 +411,23 @@ Proof.
         rewrite rmap_prepend2. cbn [app].
         rewrite (S_bs_cr raw ib tr q Hq n' t2) by lia. apply NL; [simpl in Hn |- *; lia|vapp Hv [13]]. }
   destruct (e <? 0x80) eqn:EA.
-  - assert (V1 : valid_utf8 t1 = true) by (vapp Hv [e]).
+  - assert (V1 : okv ex t1) by (vapp Hv [e]).
     rewrite (G_esc_ascii tr q Hq e t1) by lia. rewrite rmap_prepend2. cbn [app].
     destruct raw.
-    + rewrite (S_bs_raw ib tr q Hq e t1) by lia. rewrite <- (IH t1); [|simpl in Hn; lia|exact V1].
-      apply fin_prepend0; [apply LONG|]. intros l.
+    + rewrite (S_bs_raw ib tr q Hq e t1) by lia.
+      apply rel_prepend0; [apply LONG| |apply IH; [simpl in Hn; lia|exact V1]]. intros l.
       apply (U_copy_app ib true [92; e] l). repeat constructor; try lia; now right.
-    + apply (step_escape tr ib q n e t1); auto; try lia. simpl in Hn; lia.
+    + apply (step_escape ex tr ib q n e t1); auto; try lia. simpl in Hn; lia.
   - rewrite (G_esc_high tr q Hq e t1) by lia.
     destruct raw.
     + rewrite (S_bs_raw ib tr q Hq e t1) by lia.
       change [92; e] with ([92] ++ [e]). rewrite <- s_emit_emit.
       rewrite <- (S_plain true ib tr q Hq e t1) by lia.
-      rewrite <- (IH (e :: t1) Hn Hv).
-      apply fin_prepend0; [apply LONG|]. intros l.
+      apply rel_prepend0; [apply LONG| |apply (IH (e :: t1) Hn Hv)]. intros l.
       apply (U_copy_app ib true [92] l). repeat constructor; try lia; now right.
     + rewrite (S_bs_bad ib tr q Hq e t1); try lia.
-      * apply (fin_err tr false ib [92] _ (fun l => match l with [] => True | x :: _ => 0x80 <= x end)).
+      * apply rel_eq.
+        apply (fin_err tr false ib [92] _ (fun l => match l with [] => True | x :: _ => 0x80 <= x end)).
         -- apply LONG.
         -- intros b r HG. eapply high_body; [exact Hq| |exact HG]. lia.
         -- intros l Hl. cbn [app]. apply U_bs_high. exact Hl.
@@ -369,86 +438,111 @@ Proof.
 Qed.
 
 (* the closing delimiter, or a quote inside a triple-quoted literal *)
-Lemma step_quote tr raw ib q n t :
-  (q = 34 \/ q = 39) -> IHn tr raw ib q n ->
-  (length t <= n)%nat -> valid_utf8 t = true ->
-  fin tr raw ib (scanG tr q 0 false 0 (q :: t)) = s_items raw ib tr q (q :: t).
+Lemma step_quote ex tr raw ib q n t :
+  (q = 34 \/ q = 39) -> IHn ex tr raw ib q n ->
+  (length t <= n)%nat -> okv ex t ->
+  rel ex (fin tr raw ib (scanG tr q 0 false 0 (q :: t))) (s_items raw ib tr q (q :: t)).
 Proof.
   intros Hq IH Hn Hv.
   pose proof (fun s sk es => scanG_long tr q s sk es Hq) as LONG.
   assert (UQ : forall out l, Forall (fun c => c = q) out -> unq_loop ib raw (out ++ l) = rmap (app out) (unq_loop ib raw l)).
   { intros out l Ho. apply U_copy_app. eapply Forall_impl; [|exact Ho]. intros a ->. split; [lia|left; lia]. }
   rewrite (G_quote tr q Hq). destruct tr; cbn [negb orb].
-  2:{ rewrite (S_close1 raw ib q Hq). reflexivity. }
+  2:{ rewrite (S_close1 raw ib q Hq). apply rel_refl. }
   change (0 =? 2) with false. cbv iota.
   destruct t as [|c2 t2].
-  { rewrite (S_open3 raw ib q Hq) by (intros t'; discriminate). reflexivity. }
+  { rewrite (S_open3 raw ib q Hq) by (intros t'; discriminate). apply rel_refl. }
   destruct (c2 =? q) eqn:C2.
   2:{ rewrite (G_count true q Hq) by (intros t' Ht'; inversion Ht'; lia).
       rewrite (S_open3 raw ib q Hq) by (intros t' Ht'; inversion Ht'; lia).
-      rewrite <- (IH (c2 :: t2) Hn Hv). apply fin_prepend0; [apply LONG|].
+      apply rel_prepend0; [apply LONG| |apply (IH (c2 :: t2) Hn Hv)].
       intros l. apply UQ. repeat constructor. }
   assert (c2 = q) by lia. subst c2.
-  assert (V2 : valid_utf8 t2 = true) by (vapp Hv [q]).
+  assert (V2 : okv ex t2) by (vapp Hv [q]).
   rewrite (G_quote true q Hq). cbn [negb orb]. change (0 + 1 =? 2) with false. cbv iota.
   rewrite rmap_prepend2. cbn [app].
   destruct t2 as [|c3 t3].
   { rewrite (S_open3 raw ib q Hq) by (intros t'; discriminate).
-    rewrite (S_open3 raw ib q Hq) by (intros t'; discriminate). reflexivity. }
+    rewrite (S_open3 raw ib q Hq) by (intros t'; discriminate). apply rel_refl. }
   destruct (c3 =? q) eqn:C3.
   { assert (c3 = q) by lia. subst c3. rewrite (G_quote true q Hq). cbn [negb orb].
-    change (0 + 1 + 1 =? 2) with true. cbv iota. rewrite (S_close3 raw ib q Hq). reflexivity. }
+    change (0 + 1 + 1 =? 2) with true. cbv iota. rewrite (S_close3 raw ib q Hq). apply rel_refl. }
   rewrite (G_count true q Hq) by (intros t' Ht'; inversion Ht'; lia).
   rewrite (S_open3 raw ib q Hq) by (intros t' Ht'; inversion Ht'; lia).
   rewrite (S_open3 raw ib q Hq) by (intros t' Ht'; inversion Ht'; lia).
   rewrite s_emit_emit. cbn [app].
-  rewrite <- (IH (c3 :: t3)); [|simpl in Hn |- *; lia|exact V2].
-  apply fin_prepend0; [apply LONG|]. intros l. apply UQ. repeat constructor.
+  apply rel_prepend0; [apply LONG| |apply IH; [simpl in Hn |- *; lia|exact V2]].
+  intros l. apply UQ. repeat constructor.
 Qed.
 
-Theorem items_agree tr raw ib q : (q = 34 \/ q = 39) -> forall n, IHn tr raw ib q n.
+Theorem items_agree_rel ex tr raw ib q : (q = 34 \/ q = 39) -> forall n, IHn ex tr raw ib q n.
 Proof.
   intros Hq. induction n as [|n IH]; intros s Hn Hv.
-  { destruct s; [reflexivity|simpl in Hn; lia]. }
-  destruct s as [|c t]; [reflexivity|].
+  { destruct s; [apply rel_refl|simpl in Hn; lia]. }
+  destruct s as [|c t]; [apply rel_refl|].
   pose proof (fun s sk es => scanG_long tr q s sk es Hq) as LONG.
   assert (Hn' : (length t <= n)%nat) by (simpl in Hn; lia).
   destruct (c <? 0x80) eqn:CA.
-  2:{ (* a non-ASCII character *)
-    destruct (valid_high_split c t ltac:(lia) Hv) as (r & rest & E & Hr & Hs & Vr & Lr).
-    rewrite E. rewrite (G_rune tr q r 0 rest Hq Hs Hr).
-    pose proof (utf8_encode_high r Hr) as Hh.
-    rewrite (S_plain_app raw ib tr q Hq) by (eapply Forall_impl; [|exact Hh]; intros a Ha; cbv beta in Ha; lia).
-    rewrite <- (IH rest); [|simpl in Lr; lia|exact Vr].
-    apply fin_prepend0; [apply LONG|]. intros l. apply U_copy_app.
-    eapply Forall_impl; [|exact Hh]. intros a Ha. cbv beta in Ha. split; [lia|left; lia]. }
-  assert (Vt : valid_utf8 t = true) by (vapp Hv [c]).
+  2:{ (* a non-ASCII byte *)
+    assert (UH : forall hs l, Forall (fun b => 0x80 <= b) hs ->
+                 unq_loop ib raw (hs ++ l) = rmap (app hs) (unq_loop ib raw l)).
+    { intros hs l Hh. apply U_copy_app. eapply Forall_impl; [|exact Hh].
+      intros a Ha. cbv beta in Ha. split; [lia|left; lia]. }
+    destruct ex.
+    - (* well-formed source: the encoding of one scalar value *)
+      destruct (valid_high_split c t ltac:(lia) Hv) as (r & rest & E & Hr & Hs & Vr & Lr).
+      rewrite E. rewrite (G_rune tr q r 0 rest Hq Hs Hr).
+      pose proof (utf8_encode_high r Hr) as Hh.
+      rewrite (S_plain_app raw ib tr q Hq) by (eapply Forall_impl; [|exact Hh]; intros a Ha; cbv beta in Ha; lia).
+      apply rel_prepend0; [apply LONG| |apply IH; [simpl in Lr; lia|exact Vr]].
+      intros l. apply UH. exact Hh.
+    - (* any source: the scanner consumes w bytes, all >= 0x80, and writes a rune >= 0x80 *)
+      destruct (G_high_any tr q 0 c t Hq ltac:(lia)) as (r & w & Hr & Fh & Lw & EG).
+      rewrite EG.
+      rewrite <- (firstn_skipn (w - 1) t) at 2.
+      change (c :: firstn (w - 1) t ++ skipn (w - 1) t) with ((c :: firstn (w - 1) t) ++ skipn (w - 1) t).
+      rewrite (S_plain_app raw ib tr q Hq).
+      2:{ constructor; [lia|]. eapply Forall_impl; [|exact Fh]. intros a Ha. cbv beta in Ha. lia. }
+      apply (rel_prepend false tr raw ib _ _ (utf8_encode r) _ _ (fun _ => True)); [apply LONG|auto| |discriminate|].
+      + intros l _. apply UH. apply utf8_encode_high. exact Hr.
+      + apply IH; [rewrite skipn_length; lia|exact I]. }
+  assert (Vt : okv ex t) by (vapp Hv [c]).
   destruct (c =? q) eqn:CQ.
-  { assert (c = q) by lia. subst c. apply (step_quote tr raw ib q n t Hq IH Hn' Vt). }
+  { assert (c = q) by lia. subst c. apply (step_quote ex tr raw ib q n t Hq IH Hn' Vt). }
   destruct (c =? 92) eqn:CB.
-  { assert (c = 92) by lia. subst c. apply (step_bs tr raw ib q n t Hq IH Hn' Vt). }
+  { assert (c = 92) by lia. subst c. apply (step_bs ex tr raw ib q n t Hq IH Hn' Vt). }
   destruct (c =? 10) eqn:CN.
   { assert (c = 10) by lia. subst c. rewrite (S_nl raw ib tr q Hq). destruct tr.
-    - rewrite (G_nl3 q Hq). rewrite <- (IH t Hn' Vt). apply fin_prepend0; [apply LONG|].
+    - rewrite (G_nl3 q Hq). apply rel_prepend0; [apply LONG| |apply (IH t Hn' Vt)].
       intros l. apply (U_copy_app ib raw [10] l). repeat constructor; lia.
-    - rewrite (G_nl1 q Hq). reflexivity. }
+    - rewrite (G_nl1 q Hq). apply rel_refl. }
   destruct (c =? 13) eqn:CC.
   { assert (c = 13) by lia. subst c. destruct tr.
-    2:{ rewrite (G_cr1 q Hq), (S_cr1 raw ib q Hq). reflexivity. }
+    2:{ rewrite (G_cr1 q Hq), (S_cr1 raw ib q Hq). apply rel_refl. }
     assert (U10 : forall l, unq_loop ib raw ([10] ++ l) = rmap (app [10]) (unq_loop ib raw l)).
     { intros l. apply (U_copy_app ib raw [10] l). repeat constructor; lia. }
     destruct t as [|n' t'].
-    - rewrite (G_cr3 q Hq) by (intros t'; discriminate). rewrite (S_cr_nil3 raw ib q Hq). reflexivity.
+    - rewrite (G_cr3 q Hq) by (intros t'; discriminate). rewrite (S_cr_nil3 raw ib q Hq). apply rel_refl.
     - destruct (n' =? 10) eqn:N10.
       + assert (n' = 10) by lia. subst n'. rewrite (G_cr_lf3 q Hq), (S_cr_lf3 raw ib q Hq).
-        rewrite <- (IH t'); [|simpl in Hn'; lia|vapp Vt [10]].
-        apply fin_prepend0; [apply LONG|exact U10].
+        apply rel_prepend0; [apply LONG|exact U10|apply IH; [simpl in Hn'; lia|vapp Vt [10]]].
       + rewrite (G_cr3 q Hq) by (intros t0 Ht0; inversion Ht0; lia).
         rewrite (S_cr3 raw ib q Hq) by lia.
-        rewrite <- (IH (n' :: t') Hn' Vt). apply fin_prepend0; [apply LONG|exact U10]. }
+        apply rel_prepend0; [apply LONG|exact U10|apply (IH (n' :: t') Hn' Vt)]. }
   (* an ordinary ASCII character *)
   rewrite (G_plain tr q Hq c 0 t) by (unfold splain; lia).
   rewrite (S_plain raw ib tr q Hq c t) by lia.
-  rewrite <- (IH t Hn' Vt). apply fin_prepend0; [apply LONG|].
+  apply rel_prepend0; [apply LONG| |apply (IH t Hn' Vt)].
   intros l. apply (U_copy_app ib raw [c] l). repeat constructor; lia.
 Qed.
+
+(* well-formed source: same value, same remaining input *)
+Theorem items_agree tr raw ib q s : (q = 34 \/ q = 39) -> valid_utf8 s = true ->
+  fin tr raw ib (scanG tr q 0 false 0 s) = s_items raw ib tr q s.
+Proof. intros Hq Hv. exact (items_agree_rel true tr raw ib q Hq (length s) s (le_n _) Hv). Qed.
+
+(* any source: accepted by both or by neither, same remaining input *)
+Theorem items_agree_extent tr raw ib q s : (q = 34 \/ q = 39) ->
+  omap (fun p : list N * list N => snd p) (fin tr raw ib (scanG tr q 0 false 0 s))
+  = omap (fun p : list N * list N => snd p) (s_items raw ib tr q s).
+Proof. intros Hq. exact (items_agree_rel false tr raw ib q Hq (length s) s (le_n _) I). Qed.
